@@ -38,20 +38,14 @@ func Area64(path Path64) float64 {
 		return 0
 	}
 
-	var a int64 = 0
+	var a int128
 	prevPt := path[len(path)-1]
 	for _, pt := range path {
-		a += (prevPt.Y + pt.Y) * (prevPt.X - pt.X)
+		a = a.add(mulInt64(prevPt.Y+pt.Y, prevPt.X-pt.X))
 		prevPt = pt
 	}
 
-	vA, _ := decimal.New(a, 0)
-	cV, _ := decimal.NewFromFloat64(0.5)
-
-	mV, _ := vA.Mul(cV)
-	res, _ := mV.Float64()
-
-	return res
+	return a.toFloat64() * 0.5
 }
 
 func AreaD(path PathD) float64 {
